@@ -178,6 +178,14 @@ def param_sets(ctx):
         {'name': 'rooms', 'shape': (7, 5), 'layout': (3, 1)}, {'name': 'keydoor', 'shape': (5, 8)}, {'name': 'keydoor', 'shape': (7, 6)}, {'name': 'keydoor', 'shape': (8, 7)}, {'name': 'teleport', 'shape': (6, 4)},
         # sizes the layout does not divide evenly (rooms of unequal size; the outer wall must still be the grid boundary)
         {'name': 'rooms', 'shape': (6, 6), 'layout': (2, 2)}, {'name': 'rooms', 'shape': (8, 8), 'layout': (2, 2)}, {'name': 'rooms', 'shape': (6, 9), 'layout': (1, 3)},
+        # parameter sets at and below the limits (today: ValueError, nothing to search; if one of them starts to yield states, they are searched):
+        # one-row key-door grids, layouts whose rooms would have no cells (finding D8: rooms 5x5 / (4,1) used to return three unconnected
+        # floor cells), tiny shapes
+        {'name': 'keydoor', 'shape': (3, 5)}, {'name': 'keydoor', 'shape': (3, 6)}, {'name': 'keydoor', 'shape': (3, 7)},
+        {'name': 'rooms', 'shape': (5, 5), 'layout': (4, 1)}, {'name': 'rooms', 'shape': (5, 5), 'layout': (1, 4)}, {'name': 'rooms', 'shape': (6, 4), 'layout': (5, 1)},
+        {'name': 'rooms', 'shape': (5, 6), 'layout': (4, 1)},
+        {'name': 'teleport', 'shape': (3, 5)}, {'name': 'dynamic_obstacles', 'shape': (3, 5), 'num_obstacles': 1, 'random_agent': False},
+        {'name': 'crossing', 'shape': (3, 5), 'num_rivers': 1, 'object_type': TY['Wall']},
         {'name': 'rooms', 'shape': (5, 5), 'layout': (2, 2)}, {'name': 'rooms', 'shape': (5, 7), 'layout': (1, 2)}, {'name': 'rooms', 'shape': (7, 7), 'layout': (3, 3)},
         {'name': 'dynamic_obstacles', 'shape': (4, 5), 'num_obstacles': 1, 'random_agent': False},
         {'name': 'dynamic_obstacles', 'shape': (5, 5), 'num_obstacles': 3, 'random_agent': True},
